@@ -17,7 +17,8 @@ RULE = ('Generated histories of emit(to=sid, callback=cb_k) and call() to '
         'duplicate ACKs processed while the callback is still running, '
         'callbacks that raise (contained once, never re-invoked), emits '
         'with callback that cannot be sent (unencodable payload, failing '
-        'transport send), '
+        'transport send), acknowledgements (text or binary) on a namespace '
+        'that their living transport has left or never joined, '
         'and with disconnects (3 kinds) and reconnects; for call(): generated '
         'orders of {right ACK, wrong ACK, client disconnect, timeout}. '
         'Oracle (model of outstanding callbacks per sid): ids unique among a '
@@ -82,6 +83,11 @@ def strategy(tier):
                                'how': st.sampled_from(['cdisc', 'sdisc',
                                                        'lose'])}),
         st.fixed_dictionaries({'op': st.just('reconnect'), 'j': ci}),
+        # an acknowledgement (text or with attachments) on a namespace that
+        # its transport has left, or never joined, while the transport lives
+        st.fixed_dictionaries({'op': st.just('late_ack'), 'j': ci,
+                               'pid': st.sampled_from([0, 1, 2, 3, 7]),
+                               'args': args, 'binary': st.booleans()}),
         st.fixed_dictionaries({'op': st.just('call'), 'c': ci,
                                'timeout': st.sampled_from([0.5, 1, 60]),
                                'data': S.payload_st(max_leaves=3),
@@ -243,6 +249,25 @@ def _run(case, w):
                     if ci is None:
                         raise Violation('reconnect-refused', '')
                     reconnected_since_emit.add((t, c['ns']))
+            continue
+        if k == 'late_ack':
+            slots = [(t, n) for t in range(len(w.t)) if w.t_alive[t]
+                     for n in NSS if w.client_on(t, n) is None]
+            if not slots:
+                continue
+            t, n = slots[op['j'] % len(slots)]
+            left = any(c2['t'] == t and c2['ns'] == n for c2 in w.clients)
+            w.recv_all()
+            w.send(t, wire.ACK, n, op['pid'], list(op['args']) + (
+                [b'late'] if op['binary'] else []))
+            labels['ack_on_left_namespace' if left
+                   else 'ack_on_namespace_never_joined'] = True
+            if any(outstanding.get(i) for i in lv):
+                labels['nontrivial'] = True
+            check_quiet(step, 'late_ack')
+            for t2, pkts in w.recv_all().items():
+                if pkts:
+                    raise Violation('ack-caused-traffic', repr(pkts))
             continue
         if not lv:
             continue
